@@ -55,6 +55,14 @@ class Engine:
                 return False
             if target.recv_is_self and frame.self_same:
                 return True
+            # static / class methods of the own class called through self
+            f = call.func
+            if frame.self_same and target.func.kind in (
+                    'staticmethod', 'classmethod') and \
+                    isinstance(f, ast.Attribute) and \
+                    isinstance(f.value, ast.Name) and \
+                    f.value.id in (frame.ctx.func.self_name, 'cls'):
+                return True
             if extra is not None:
                 return bool(extra(builder, call, target, frame))
             return False
